@@ -11,7 +11,7 @@ CHECKS = {
    text="1500 (quick) / 30000 (thorough) pipeline runs in the -race build with the verif hooks on. Race reports are parsed from the detector's logs and de-duplicated; released block buffers are poisoned, quarantined and re-verified (write after release), poison in output is read after release, double releases are recorded; the ordering goroutine's event order is compared with the submit order; output bytes are compared with the sequential Writer's; deadlock and leaks are decided from goroutine states, runaway loops from a bound on the hook sites one call passes. Writer runs vary content/block checksums, legacy frames and content sizes (one with a zero header checksum byte); Reader runs include corrupt blocks, failing sources and a Reset while the pipeline of the previous frame is still running. Interleavings are sampled: the evidence reports the number of distinct ones observed.",
    ref="6/C08"),
  "C14": dict(cat="exploration", tech="differential runtime monitoring of the real compressors under real histories (fresh vs reused vs pooled objects, failed calls, related inputs, concurrent pool churn) and of the real Writer across concurrency levels, schedules (perturbation hooks), poisoned pools and Write partitions, in plain and -race builds",
-   text="Block half: every (source, depth, destination size) output of a fresh object is compared byte for byte with the same call after six kinds of history and from the package pools under goroutine churn. Frame half (-race build, poison pool, perturbation): sink bytes for concurrency {1,2,4,16} x 5 partition styles (and ReadFrom x 4 source fragmentation modes) must equal one Write at concurrency 1.",
+   text="Block half: every (source, depth, destination size) output of a fresh object is compared byte for byte with the same call after six kinds of history and from the package pools under goroutine churn. Frame half (-race build, poison pool, perturbation): sink bytes for concurrency {1,2,4,16} x 5 partition styles (and ReadFrom x 4 source fragmentation modes) must equal one Write at concurrency 1. Writers with a past (another frame with other options that was closed, abandoned in mid-frame, or whose header write failed; then Reset and Apply) must emit the same bytes as a new Writer.",
    ref="6/C14"),
  "C15": dict(cat="fault_enumeration", tech="I/O fault enumeration on the real Writer and Reader: a dry run counts the sink / source calls, then every call index fails (persistent and transient; with zero bytes and with a proper prefix / some data); errors are matched with errors.Is against the injected values; fragmenting sources for the independence clause",
    text="Every sink call index of 5 scripts x 12 configurations and every source call index of every seed frame x 6 reader modes is failed in turn; the first injected error must be returned by Write/ReadFrom/Flush or at the latest by Close, the sink must hold a prefix of the fault-free output, a Reader must never end cleanly and must return an injected error, delivered bytes are a prefix. All four fragmentation modes must decode exactly like a plain source.",
